@@ -14,7 +14,7 @@ TOKENS = [b"\r", b"\n", b"\r\n", b"\x00", b" ", b"\t", b"\x0b", b":", b",", b";"
           b"Content-Length: 5\r\n", b"Content-Length: 0\r\n", b"Transfer-Encoding: chunked\r\n", b"Transfer-Encoding: x\r\n", b"Connection: close\r\n", b"Expect: 100-continue\r\n",
           b"Host: a\r\n", b"Range: bytes=0-9223372036854775807\r\n", b"Range: bytes=-1\r\n", b"If-Range: x\r\n", b"Cache-Control: max-age=99999999999\r\n", b"Vary: *\r\n",
           b"Authorization: Basic ====\r\n", b"Proxy-Authorization: Basic dTpw\r\n", b"Via: 1.1 verifproxy (squid)\r\n", b"X-Forwarded-For: " + b"1.1.1.1, " * 50 + b"\r\n",
-          b"A" * 64, b"A" * 1024, b"\xff\xfe", b"\x80", b"\x7f", b"()<>@,;:\\\"/[]?={}"]
+          b"A" * 64, b"A" * 1024, b"h" * 9000, b"/" + b"p" * 9000, b"\xff\xfe", b"\x80", b"\x7f", b"()<>@,;:\\\"/[]?={}"]
 
 mutation = st.one_of(
     st.tuples(st.just("sub"), st.integers(0, 999), st.integers(0, 255)),
@@ -63,7 +63,7 @@ def strategy(tp):
 
 
 def setup(ctx):
-    return ProxyEnv(ctx, conf="request_header_max_size 8 KB\nreply_header_max_size 8 KB\nread_timeout 4 seconds\nrequest_timeout 4 seconds\n"
+    return ProxyEnv(ctx, conf="request_header_max_size 24 KB\nreply_header_max_size 8 KB\nread_timeout 4 seconds\nrequest_timeout 4 seconds\n"
                               "connect_timeout 2 seconds\nclient_lifetime 30 seconds\npipeline_prefetch 3\n", cache_mem="16 MB")
 
 
